@@ -88,9 +88,18 @@ def check_as_samples(ctx, r, B):
     kind = r.choice(['dict', 'dicts', 'dicts', 'dicts', 'lab', 'lab1', 'arr', 'arr1', 'ss', 'dicts-mismatch', 'lab-mismatch'])
     ctx.tick('as_samples:' + kind)
     hdr = 'import numpy as np, dimod\nfrom fractions import Fraction\n'
+    # forms given without a dtype: a third of the time the largest magnitude sits exactly at the edge of an integer width
+    bnd = kind in ('dict', 'dicts', 'lab1', 'arr1') and r.random() < .35
+
+    def inject(rows_):
+        if bnd and rows_ and rows_[0]:
+            w_, bv_ = boundary_value(r)
+            rows_[0][r.choice(list(rows_[0]))] = bv_
+            ctx.tick(f'as_samples: boundary 2^{w_} ({kind})')
     if kind in ('dict', 'dicts', 'dicts-mismatch'):
         if kind == 'dict':
             rows = rows[:1] or [{l: 1 for l in labels}]
+        inject(rows)
         orders = [perm_of(r, labels) for _ in rows]
         if kind != 'dict' and len(rows) >= 2 and n >= 3 and r.random() < .6:
             base = list(orders[0]); i, j, kk = r.sample(range(n), 3)
@@ -115,6 +124,7 @@ def check_as_samples(ctx, r, B):
         perm = perm_of(r, labels)
         if kind == 'lab1':
             rows = rows[:1]
+            inject(rows)
         if kind == 'ss' and (not rows or not n):
             return
         mat = [[row[l] for l in perm] for row in rows]
@@ -139,6 +149,7 @@ def check_as_samples(ctx, r, B):
         rows = [{l: r.choice([-2, -1, 0, 1, 3]) for l in labels} for _ in range(k)]
         if kind == 'arr1':
             rows = rows[:1]
+            inject(rows)
         mat = [[row[l] for l in labels] for row in rows]
         if kind == 'arr1':
             expr = repr(mat[0] if mat else [])
@@ -185,10 +196,210 @@ def check_as_samples(ctx, r, B):
                 if bad:
                     break
         if bad:
-            ctx.fail('property', 'as_samples', ic, f'{bad}; input {expr}', repro=repro, detail=dict(input=expr))
+            ctx.fail('property', 'as_samples', ic + ('; largest magnitude at the edge of an integer width' if bnd else ''),
+                     f'{bad}; input {expr}', repro=repro, detail=dict(input=expr))
     else:
         ctx.fail('property', 'as_samples', ic, f'valid input rejected ({out}): {expr}', repro=repro)
     B.add(line, out, 'as_samples', ic, f'as_samples({expr})', detail=dict(input=expr))
+
+
+# ------------------------------------------------------------------------------------------ as_samples: remaining forms (round 7)
+
+def sl_elem(r, kind, rows, labels):
+    """one element of an iterator of samples-likes: (python expression, driver tokens)"""
+    if kind == 'dict':
+        o = perm_of(r, labels)
+        return dict_lit(rows[0], o), 'dict ' + (','.join(f'{lab(k)}={rat(F(rows[0][k]))}' for k in o) or '.')
+    perm = perm_of(r, labels)
+    mat = [[row[l] for l in perm] for row in rows]
+    if kind == 'lab':
+        return f'(np.array({mat!r}).reshape({len(rows)}, {len(perm)}), {perm!r})', f'lab {rows_tok(mat)} {labs(perm)}'
+    if kind == 'lab1':
+        return f'({mat[0]!r}, {perm!r})', f'lab1 {rats(mat[0])} {labs(perm)}'
+    if kind == 'ss':
+        return (f'dimod.SampleSet.from_samples((np.array({mat!r}).reshape({len(rows)}, {len(perm)}), {perm!r}), "INTEGER", '
+                f'energy={[0] * len(rows)!r}, sort_labels=False)'), f'ss {rows_tok(mat)} {labs(perm)}'
+    raise ValueError(kind)
+
+
+def check_as_samples_forms(ctx, r, B):
+    """the input forms beyond the seven of `SL`: iterators / generators / map objects / sequences containing a mapping whose
+    ELEMENTS are samples-likes of any form (dicts, labelled arrays with several rows, SampleSets), incl. the state the iterator
+    object is left in (one-shot); the deprecated (Mapping, labels) tuple; (iterator, labels) and wrong-length tuples; the dtype
+    picked for integer input without a dtype."""
+    hdr = 'import warnings; warnings.simplefilter("ignore")\nimport numpy as np, dimod\n'
+    ns = {'np': np, 'dimod': dimod}
+    kind = r.choice(['iter', 'iter', 'iter', 'mapping-labels', 'tuple-errors', 'dtype', 'dtype'])
+    ctx.tick('as_samples forms:' + kind)
+    if kind == 'iter':
+        n = r.choice([1, 2, 3, 3, 4])
+        labels = r.sample(LABELS, n)
+        nel = r.choice([1, 2, 2, 3, 4])
+        elems, toks, truth = [], [], []
+        bad_at = r.randrange(nel) if nel >= 2 and r.random() < .2 else None
+        first_order = None
+        for i in range(nel):
+            ek = r.choice(['dict', 'dict', 'lab', 'lab1', 'ss'])
+            k = 1 if ek in ('dict', 'lab1') else r.choice([1, 2, 3])
+            ls = list(labels)
+            if i == bad_at and i > 0:
+                ls = ls[:-1] + [next(l for l in LABELS if l not in labels)]
+            rows = [{l: r.choice([-2, -1, 0, 1, 3]) for l in ls} for _ in range(k)]
+            e, t = sl_elem(r, ek, rows, ls)
+            elems.append(e); toks.append(t); truth.append(rows)
+            # branch of `_as_samples_iterator` this element takes (labels == first_labels / re-index / ValueError)
+            order_i = t.split(' ')[-1] if ek != 'dict' else ','.join(kv.split('=')[0] for kv in t.split(' ')[1].split(','))
+            if i == 0:
+                first_order = order_i
+            else:
+                ctx.tick('as_samples branch: iterator element ' + ('with another label set' if i == bad_at else
+                                                                   'in the first element\'s label order' if order_i == first_order else 're-indexed'))
+            ctx.tick(f'as_samples branch: iterator element of form {ek}')
+        if bad_at == 0:
+            bad_at = None
+        has_map = any(e.startswith('{') for e in elems)
+        wrap = r.choice(['iter', 'generator', 'map'] + (['list', 'list'] if has_map else []))
+        lst = '[' + ', '.join(elems) + ']'
+        expr = {'iter': f'iter({lst})', 'generator': f'(e_ for e_ in {lst})', 'map': f'map(lambda e_: e_, {lst})', 'list': lst}[wrap]
+        ic = f'iterator of samples-likes ({wrap})' + ('; an element with another label set' if bad_at is not None else '')
+        line = 'assamplesiter ' + ' / '.join(toks)
+        ctx.tick('as_samples forms: wrapper ' + wrap)
+        flat = [row for rows in truth for row in rows]
+        repro = hdr + f'enc = {expr}\ntruth = {flat!r}\narr, labels = dimod.as_samples(enc)\nassert len(arr) == len(truth), (arr, labels)\n' \
+            'for r, row in enumerate(truth):\n    for l, x in row.items():\n        assert arr[r][list(labels).index(l)] == x, (r, l, arr[r], x)\n'
+        ctx.case(('as_samples forms', expr), nontrivial=True)
+        it = eval(expr, ns)
+        one_shot = wrap in ('iter', 'generator', 'map')
+        try:
+            arr, got_labels = dimod.as_samples(it)
+            got_rows = [[F(x) for x in row] for row in np.asarray(arr).tolist()]
+            got_labels = list(got_labels)
+            out = f'ok {rows_tok(got_rows)} {labs(got_labels)}'
+            ok = True
+        except Exception as e:  # noqa
+            out, ok = 'err ' + exc_class(e), False
+        left = len(list(it)) if one_shot else None
+        if bad_at is not None:
+            if ok:
+                ctx.fail('property', 'as_samples', ic, f'accepted {expr}', repro=hdr + f'try:\n    dimod.as_samples({expr})\nexcept ValueError:\n    pass\nelse:\n    raise AssertionError("accepted")\n')
+        elif not ok:
+            ctx.fail('property', 'as_samples', ic, f'valid input rejected ({out}): {expr}', repro=repro)
+        else:
+            bad = None
+            if len(got_rows) != len(flat):
+                bad = f'{len(got_rows)} rows for {len(flat)} samples'
+            else:
+                for ri, row in enumerate(flat):
+                    for l, x in row.items():
+                        if l not in got_labels or got_rows[ri][got_labels.index(l)] != x:
+                            bad = f'row {ri} label {l!r}: delivered {got_rows[ri][got_labels.index(l)] if l in got_labels else None}, the input assigns {x}'
+                            break
+                    if bad:
+                        break
+            if bad:
+                ctx.fail('property', 'as_samples', ic, f'{bad}; input {expr}', repro=repro, detail=dict(input=expr))
+            if one_shot:
+                # Lean: as_samples_iterator_one_shot — the same iterator object asked again yields zero samples
+                arr2, labels2 = dimod.as_samples(it)
+                ctx.tick('as_samples forms: iterator asked twice')
+                if np.asarray(arr2).shape != (0, 0) or list(labels2):
+                    ctx.fail('correspondence', 'as_samples', ic + '; same iterator object asked again', f'second call returned {np.asarray(arr2).tolist()} {list(labels2)}, model: zero samples')
+
+        def same(g, out=out, left=left):
+            res, _, lf = g.rpartition(' left=')
+            return res == out and (left is None or int(lf) == left)
+        B.add(line, '', 'as_samples', ic, f'as_samples({expr}) [iterator left with {left} elements]', detail=dict(input=expr), on_mismatch=same)
+    elif kind == 'mapping-labels':
+        n = r.choice([0, 1, 2, 3, 4])
+        labels = r.sample(LABELS, n)
+        row = {l: r.choice([-2, -1, 0, 1, 3]) for l in labels}
+        order = perm_of(r, labels)
+        given = perm_of(r, labels)
+        how = r.choice(['all', 'all', 'all', 'subset', 'missing', 'duplicate'])
+        if how == 'subset' and n >= 2:
+            given = given[:-1]
+        elif how == 'missing':
+            given = given + [next(l for l in LABELS if l not in labels)]
+        elif how == 'duplicate' and n:
+            given = given + [given[0]]
+        else:
+            how = 'all'
+        expr = f'({dict_lit(row, order)}, {given!r})'
+        ic = f'deprecated (Mapping, labels) tuple; labels: {how}'
+        ctx.case(('as_samples forms', expr), nontrivial=bool(n))
+        import warnings
+        try:
+            with warnings.catch_warnings():
+                warnings.simplefilter('ignore')
+                arr, got_labels = dimod.as_samples(eval(expr, ns))
+            got_rows = [[F(x) for x in rw] for rw in np.asarray(arr).tolist()]
+            out, ok = f'ok {rows_tok(got_rows)} {labs(got_labels)}', True
+        except Exception as e:  # noqa
+            out, ok = 'err ' + exc_class(e), False
+        if how in ('all', 'subset'):
+            repro = hdr + f'arr, labels = dimod.as_samples({expr})\nrow = {row!r}\nassert list(labels) == {given!r} and len(arr) == 1\n' \
+                'for j, l in enumerate(labels):\n    assert arr[0][j] == row[l]\n'
+            if not ok:
+                ctx.fail('property', 'as_samples', ic, f'valid input rejected ({out}): {expr}', repro=repro)
+            elif list(got_labels) != given or len(got_rows) != 1 or any(got_rows[0][j] != row[l] for j, l in enumerate(given)):
+                ctx.fail('property', 'as_samples', ic, f'delivered {got_rows} under {list(got_labels)}; input {expr}', repro=repro)
+        elif ok:
+            ctx.fail('property', 'as_samples', ic, f'accepted {expr} -> {out}',
+                     repro=hdr + f'try:\n    dimod.as_samples({expr})\nexcept ValueError:\n    pass\nelse:\n    raise AssertionError("accepted")\n')
+        B.add(f'assamplesml {",".join(f"{lab(k)}={rat(F(row[k]))}" for k in order) or "."} {labs(given)}', out, 'as_samples', ic, f'as_samples({expr})', detail=dict(input=expr))
+    elif kind == 'tuple-errors':
+        for expr, exc in (("(iter([1, 0]), ['a', 'b'])", TypeError), ("([1, 0], ['a', 'b'], 3)", ValueError), ("([1, 0],)", ValueError)):
+            ctx.case(('as_samples forms', expr), nontrivial=True)
+            try:
+                dimod.as_samples(eval(expr, ns))
+                got = None
+            except Exception as e:  # noqa
+                got = type(e)
+            if got is not exc:
+                ctx.fail('property' if got is None else 'correspondence', 'as_samples', 'malformed tuple', f'{expr}: {got}, model: {exc.__name__}',
+                         repro=hdr + f'try:\n    dimod.as_samples({expr})\nexcept Exception:\n    pass\nelse:\n    raise AssertionError("accepted")\n')
+    else:
+        # dtype: nested list of Python ints, one entry at the edge of a width (all four widths incl. ±(2^63 - 1) and -2^63)
+        n, k = r.choice([1, 2, 3]), r.choice([1, 2, 3])
+        mat = [[r.choice([-3, -1, 0, 1, 2, 100, -100]) for _ in range(n)] for _ in range(k)]
+        w = r.choice([7, 7, 15, 15, 31, 31, 63])
+        bv = r.choice([2 ** w, -(2 ** w), 2 ** w - 1, -(2 ** w) + 1, 2 ** w + 1, -(2 ** w) - 1])
+        if bv > 2 ** 63 - 1 or bv < -2 ** 63:
+            bv = 2 ** 63 - 1
+        if w > 7 or abs(bv) > 100 or r.random() < .8:
+            mat[r.randrange(k)][r.randrange(n)] = bv
+        form = r.choice(['list', 'list+labels', 'dicts', 'dict'])
+        labels = list(range(n))
+        if form == 'list':
+            expr = repr(mat)
+        elif form == 'list+labels':
+            expr = f'({mat!r}, {labels!r})'
+        elif form == 'dicts':
+            expr = '[' + ', '.join('{' + ', '.join(f'{j}: {row[j]}' for j in range(n)) + '}' for row in mat) + ']'
+        else:
+            mat = mat[:1]
+            expr = '{' + ', '.join(f'{j}: {mat[0][j]}' for j in range(n)) + '}'
+        ic = f'integer samples without a dtype; extreme entry {"+" if bv > 0 else "-"}2^{w}' + \
+            ('' if abs(bv) == 2 ** w else '-1' if abs(bv) < 2 ** w else '+1') + f' ({form})'
+        ctx.tick(f'as_samples forms: dtype 2^{w}')
+        ctx.case(('as_samples forms', expr), nontrivial=True)
+        repro = hdr + f'arr, labels = dimod.as_samples({expr})\nassert arr.tolist() == {mat!r}, (arr.dtype, arr.tolist())\n'
+        try:
+            arr, _ = dimod.as_samples(eval(expr, ns))
+            arr = np.asarray(arr)
+            ok = True
+        except Exception as e:  # noqa
+            ok, out = False, 'err ' + exc_class(e)
+        if ok:
+            if arr.tolist() != mat:
+                ctx.fail('property', 'as_samples', ic, f'delivered {arr.tolist()} (dtype {arr.dtype}) for {mat}', repro=repro, detail=dict(input=expr))
+                return
+            out = f'ok {arr.dtype.name} {introws_tok(arr.tolist())}'
+            ctx.tick(f'as_samples branch: _sample_array picked {arr.dtype.name}')
+        else:
+            ctx.fail('property', 'as_samples', ic, f'valid input rejected ({out}): {expr}', repro=repro)
+        if form != 'dicts' or k == 1:   # a list of dicts picks the type per element and lets vstack promote
+            B.add(f'samplearray {introws_tok(mat)}', out, 'sampleset._sample_array', ic, f'as_samples({expr})', detail=dict(input=expr))
 
 
 # ------------------------------------------------------------------------------------------ quadratic models
@@ -256,7 +467,7 @@ def check_energies(ctx, r, B, R, target, site, labels_used, all_labels, dom, mir
             ctx.case((site, target, enc_expr, R.lines[-1]), nontrivial=True)
             if name.startswith('dicts') and as_samples_wrong(enc_expr.replace('iter(', '(') if name == 'dicts-iter' else enc_expr, rows, R.ns):
                 ctx.fail('property', 'as_samples', 'list of dicts in differing key orders',
-                         f'{site}: {type(e).__name__} because as_samples misplaces columns; input {enc_expr}', repro=repro)
+                         f'{site}: {type(e).__name__} because as_samples delivers other values than the input assigns; input {enc_expr}', repro=repro)
             else:
                 ctx.fail('property', site, ic, f'{type(e).__name__}: {e} for a sample that assigns every variable', repro=repro,
                          detail=dict(encoding=enc_expr))
@@ -267,7 +478,7 @@ def check_energies(ctx, r, B, R, target, site, labels_used, all_labels, dom, mir
         if got != expect:
             if name.startswith('dicts') and as_samples_wrong(enc_expr.replace('iter(', '(') if name == 'dicts-iter' else enc_expr, rows, R.ns):
                 ctx.fail('property', 'as_samples', 'list of dicts in differing key orders',
-                         f'{site}: energies {list(map(str, got))} != {list(map(str, expect))} because as_samples misplaces columns; input {enc_expr}',
+                         f'{site}: energies {list(map(str, got))} != {list(map(str, expect))} because as_samples delivers other values than the input assigns; input {enc_expr}',
                          repro=repro, detail=dict(encoding=enc_expr))
             else:
                 ctx.fail('property', site, ic, f'energies {list(map(str, got))} but the polynomial of the reported coefficients gives '
@@ -356,6 +567,8 @@ def case_bqm(ctx, r, B):
         e = poly_value(m, dict(zip(m.variables, x)))
         B.add(f'energy {l} {a} {o} {rats(x)}', f'{rat(e)} {rat(e)} {rat(e)}', 'abc.h::energy', 'plain vector', 'three evaluations of one sample',
               detail=dict(model=R.lines[4:]))
+        B.add(f'energygen {l} {a} {o} {rats(x)}', f'{rat(e)} {rat(e)}', 'abc.h::energy', 'plain vector; loops over the guards regenerated from the source',
+              'C++ and Cython loops with generated guards', detail=dict(model=R.lines[4:]))
     # D33: the only array-like sample of a variable-free model
     if not labels:
         ctx.tick('energy([])')
@@ -389,6 +602,8 @@ def case_qm(ctx, r, B):
         e = poly_value(m, dict(zip(m.variables, x)))
         B.add(f'energy {l} {a} {o} {rats(x)}', f'{rat(e)} {rat(e)} {rat(e)}', 'abc.h::energy', 'plain vector', 'three evaluations of one sample',
               detail=dict(model=R.lines[4:]))
+        B.add(f'energygen {l} {a} {o} {rats(x)}', f'{rat(e)} {rat(e)}', 'abc.h::energy', 'plain vector; loops over the guards regenerated from the source',
+              'C++ and Cython loops with generated guards', detail=dict(model=R.lines[4:]))
     else:
         try:
             e = F(m.energy([]))
@@ -534,6 +749,192 @@ def case_wide(ctx, r, B):
         return f'exprenergies {vars_tok}|{l}|{a}|{o} {labs(c.variables)} {rows_tok(d_rows)} {labs(d_labels)}'
     check_energies(ctx, r, B, R, target, site, list(t.variables), labels + extra, dom, mirror, all_dtypes=True,
                    nrows=r.choice([1, 2, 3]), exact=exact_in_double, degenerate='wide integer values')
+
+
+
+# ------------------------------------------------------------------------------------------ range-labelled CQM (round 7)
+
+def case_cqm_range(ctx, r, B):
+    """A CQM whose variables are labelled exactly 0..n-1 in order (registered up front, learned from the objective, or relabelled
+    into that state), whose objective / constraints were written in OTHER variable orders (so the expression's private order is a
+    non-identity permutation of the parent's order, spanning every variable or a subset), evaluated on samples labelled exactly
+    0..k-1 in order (k = n or n+1): unlabelled arrays and lists, (array, range), dicts / lists of dicts / SampleSets with sorted
+    integer keys — the inputs for which a label lookup could be skipped — next to the same rows in a shuffled column order."""
+    R = Recipe()
+    n = r.choice([1, 2, 2, 3, 3, 4, 5])
+    how = r.choice(['add_variable', 'add_variable', 'objective first', 'relabel'])
+    tmp = {i: (LABELS[4:] + ['z9'])[i] if how == 'relabel' else i for i in range(n)}
+    vts = {i: r.choice(['BINARY', 'SPIN', 'INTEGER', 'INTEGER']) for i in range(n)}
+    R.do('c = CQM()')
+
+    def addvar(obj, i):
+        return (f'{obj}.add_variable({vts[i]!r}, {tmp[i]!r}' + (', lower_bound=-4, upper_bound=8)' if vts[i] == 'INTEGER' else ')'))
+    if how != 'objective first':
+        for i in range(n):
+            R.do(addvar('c', i))
+    targets = []
+    nexpr = r.choice([1, 2, 3])
+    for ei in range(nexpr + 1):
+        if ei == 0 and how == 'objective first':
+            sub = list(range(n))            # the CQM learns 0..n-1 from the objective
+        else:
+            full = r.random() < .6
+            sub = perm_of(r, range(n)) if full else perm_of(r, [i for i in range(n) if r.random() < .6])
+        R.do(f'q{ei} = QM()')
+        for i in sub:
+            R.do(addvar(f'q{ei}', i))
+            R.do(f'q{ei}.set_linear({tmp[i]!r}, {fl(q8(r))})')
+        for _ in range(r.choice([0, 1, 2, 4]) if sub else 0):
+            u, v = r.choice(sub), r.choice(sub)
+            if u == v and vts[u] != 'INTEGER':
+                continue
+            R.do(f'q{ei}.add_quadratic({tmp[u]!r}, {tmp[v]!r}, {fl(q8(r))})')
+        R.do(f'q{ei}.offset = {fl(q8(r))}')
+        if ei == 0:
+            R.do('c.set_objective(q0)')
+            targets.append(('c.objective', 'CQM.objective.energies', sub))
+        else:
+            R.do(f'c.add_constraint_from_model(q{ei}, {r.choice(["<=", ">=", "=="])!r}, {fl(q8(r))}, label={f"k{ei}"!r})')
+            targets.append((f'c.constraints[{f"k{ei}"!r}].lhs', 'CQM.constraint.lhs.energies', sub))
+    if how == 'relabel':
+        R.do(f'c.relabel_variables({ {tmp[i]: i for i in range(n)}!r})')
+    c = R['c']
+    if list(c.variables) != list(range(n)):
+        ctx.tick('range-cqm: variables not 0..n-1 (dropped)')
+        return
+    k = n + r.choice([0, 0, 0, 1])
+    dom = lambda i: domain(vts[i]) if i in vts else [0, 1]  # noqa
+    nrows = r.choice([1, 2, 3])
+    rows = [{i: r.choice(dom(i)) for i in range(k)} for _ in range(nrows)]
+    mat = [[row[i] for i in range(k)] for row in rows]
+    sperm = perm_of(r, range(k))
+    smat = [[row[i] for i in sperm] for row in rows]
+    encs = [('array (unlabelled)', f'np.array({mat!r})', rows), ('float array (unlabelled)', f'np.array({mat!r}, dtype=float)', rows),
+            ('list (unlabelled)', repr(mat), rows), ('array+range', f'(np.array({mat!r}), range({k}))', rows),
+            ('array+sorted list', f'(np.array({mat!r}), {list(range(k))!r})', rows),
+            ('dicts sorted keys', '[' + ', '.join(dict_lit(row, list(range(k))) for row in rows) + ']', rows),
+            ('dict sorted keys', dict_lit(rows[0], list(range(k))), rows[:1]),
+            ('sampleset sorted', f'SampleSet.from_samples((np.array({smat!r}), {sperm!r}), "INTEGER", energy={[0] * nrows!r}, sort_labels=True)', rows),
+            ('sampleset unsorted', f'SampleSet.from_samples((np.array({mat!r}), {list(range(k))!r}), "INTEGER", energy={[0] * nrows!r}, sort_labels=False)', rows),
+            ('array+shuffled labels', f'(np.array({smat!r}), {sperm!r})', rows)]
+    for target, site, sub in targets:
+        t = R.ev(target)
+        order = list(t.variables)
+        permuted = order != sorted(order)
+        ic = ('CQM and samples both labelled 0..k-1; expression order ' + ('permuted' if permuted else 'ascending') +
+              ('' if len(order) == n else ' (subset)') + ('' if k == n else '; sample has an extra column'))
+        if permuted and len(order) == k:
+            ctx.tick('range-cqm: permuted expression spanning every column')
+        for name, expr, erows in encs:
+            ctx.tick(f'{site}:range:{name}')
+            ctx.case((site, tuple(R.lines[4:]), target, expr), nontrivial=bool(order))
+            repro = R.script(f't = {target}\nenc = {expr}\nrows = {erows!r}\ngot = [F(e) for e in t.energies(enc)]\n'
+                             'exp = [poly_value(t, row) for row in rows]\nassert got == exp, (got, exp)\n')
+            try:
+                got = [F(e) for e in t.energies(R.ev(expr))]
+            except Exception as e:  # noqa
+                ctx.fail('property', site, ic, f'{type(e).__name__}: {e} ({name})', repro=repro)
+                continue
+            exp = [poly_value(t, row) for row in erows]
+            if got != exp:
+                ctx.fail('property', site, ic, f'{name}: energies {list(map(str, got))} but the polynomial of the reported coefficients gives '
+                         f'{list(map(str, exp))}; expression order {order}', repro=repro, detail=dict(encoding=expr))
+                continue
+            if len(erows) == 1 and name.startswith('dict'):
+                try:
+                    e1 = F(t.energy(R.ev(expr)))
+                except Exception as e:  # noqa
+                    e1 = repr(e)
+                if e1 != exp[0]:
+                    ctx.fail('property', site.replace('energies', 'energy'), ic, f'energy({expr}) = {e1}, reported polynomial {exp[0]}',
+                             repro=R.script(f't = {target}\nassert F(t.energy({expr})) == poly_value(t, {erows[0]!r})\n'))
+            d_rows, d_labels = real_as_samples(R.ev(expr))
+            l, a, o = qmb_tokens(t, order=order, r=r)
+            vars_tok = ','.join(str(c.variables.index(v)) for v in order) or '-'
+            B.add(f'exprenergies {vars_tok}|{l}|{a}|{o} {labs(c.variables)} {rows_tok(d_rows)} {labs(d_labels)}', enc_energies(got), site, ic,
+                  f'{target}.energies({expr})', detail=dict(model=R.lines[4:]))
+        # a sample (labelled 0..n-2) that omits the last variable must still be rejected
+        if n >= 2 and (n - 1) in order:
+            for bad in (dict_lit(rows[0], list(range(n - 1))), repr(mat[0][:n - 1])):
+                ctx.tick(f'{site}:range:missing')
+                ctx.case((site, tuple(R.lines[4:]), target, 'missing', bad), nontrivial=True)
+                try:
+                    got = t.energies(R.ev(bad))
+                except Exception:  # noqa
+                    continue
+                ctx.fail('property', site, 'sample omits a variable', f'accepted {bad} (no value for {n - 1}) -> {list(got)}',
+                         repro=R.script(f't = {target}\ntry:\n    t.energies({bad})\nexcept Exception:\n    pass\nelse:\n    raise AssertionError("accepted")\n'))
+
+
+# ------------------------------------------------------------------------------------------ integer-width boundaries (round 7)
+
+WIDTHS = (7, 15, 31)
+
+
+def boundary_value(r, w=None):
+    """a value at the edge of a signed integer width: ±2^w, ±(2^w - 1), ±(2^w + 1)"""
+    w = r.choice(WIDTHS) if w is None else w
+    return w, r.choice([1, 1, 1, -1]) * (2 ** w + r.choice([0, 0, 0, -1, 1]))
+
+
+def case_dtype_boundary(ctx, r, B):
+    """samples given WITHOUT a dtype (dict, list of dicts, nested list, (list, labels), one-shot iterables): as_samples picks the
+    smallest signed integer type from the largest magnitude.  For every width w in {7, 15, 31} one entry of the sample array is
+    ±2^w, ±(2^w-1) or ±(2^w+1) and every other entry is smaller in magnitude, so the choice is decided by exactly that entry."""
+    R = Recipe()
+    w, bv = boundary_value(r)
+    n = r.choice([1, 2, 2, 3])
+    labels = r.sample(LABELS, n)
+    big = labels[0]
+    kind = r.choice(['qm', 'cqm-objective', 'cqm-constraint'])
+    R.do('q = QM()')
+    vts = {}
+    for l in labels:
+        vts[l] = 'INTEGER' if l == big or r.random() < .5 else 'BINARY'
+        R.do(f'q.add_variable({vts[l]!r}, {l!r}' + (f', lower_bound=-{2 ** 40}, upper_bound={2 ** 40})' if vts[l] == 'INTEGER' else ')'))
+        R.do(f'q.set_linear({l!r}, {fl(q8(r))})')
+    for _ in range(r.choice([0, 1, 2, 3])):
+        u, v = r.choice(labels), r.choice(labels)
+        if u == v and (vts[u] != 'INTEGER' or (u == big and w > 15)):
+            continue
+        R.do(f'q.add_quadratic({u!r}, {v!r}, {fl(q8(r))})')
+    R.do(f'q.offset = {fl(q8(r))}')
+    small = [-3, 0, 2, 7, 100, -100] if w > 7 else [-3, 0, 2, 7]
+    state = {'first': True}
+
+    def dom(l):
+        if l == big and state['first']:
+            state['first'] = False
+            return [bv]
+        return small if vts.get(l, 'INTEGER') == 'INTEGER' else [0, 1]
+    ctx.tick(f'boundary: 2^{w}' + ('' if abs(bv) == 2 ** w else '-1' if abs(bv) < 2 ** w else '+1') + (' negative' if bv < 0 else ' positive'))
+    deg = f'largest magnitude in the sample array is {"+" if bv > 0 else "-"}2^{w}' + ('' if abs(bv) == 2 ** w else '-1' if abs(bv) < 2 ** w else '+1')
+    if kind == 'qm':
+        m = R['q']
+
+        def mirror(d_rows, d_labels):
+            l, a, o = qmb_tokens(m, r=r)
+            return f'cyenergies {l} {a} {o} {labs(m.variables)} {rows_tok(d_rows)} {labs(d_labels)}'
+        check_energies(ctx, r, B, R, 'q', 'QM.energies', labels, labels, dom, mirror, all_dtypes=True, nrows=r.choice([1, 2, 3]),
+                       exact=exact_in_double, degenerate=deg)
+        return
+    R.do('c = CQM()')
+    if kind == 'cqm-objective':
+        R.do('c.set_objective(q)')
+        target, site = 'c.objective', 'CQM.objective.energies'
+    else:
+        R.do(f'c.add_constraint_from_model(q, {r.choice(["<=", ">=", "=="])!r}, {fl(q8(r))}, label="k")')
+        target, site = 'c.constraints["k"].lhs', 'CQM.constraint.lhs.energies'
+    c = R['c']
+    t = R.ev(target)
+
+    def mirror(d_rows, d_labels, t=t):
+        order = list(t.variables)
+        l, a, o = qmb_tokens(t, order=order, r=r)
+        vars_tok = ','.join(str(c.variables.index(v)) for v in order) or '-'
+        return f'exprenergies {vars_tok}|{l}|{a}|{o} {labs(c.variables)} {rows_tok(d_rows)} {labs(d_labels)}'
+    check_energies(ctx, r, B, R, target, site, list(t.variables), labels, dom, mirror, all_dtypes=True,
+                   nrows=r.choice([1, 2, 3]), exact=exact_in_double, degenerate=deg)
 
 
 # ------------------------------------------------------------------------------------------ held (stale) views
@@ -746,7 +1147,7 @@ def case_dqm(ctx, r, B, children):
             ctx.case((site, tuple(R.lines[4:]), enc_expr), nontrivial=True)
             if name.startswith('dicts') and as_samples_wrong(enc_expr.replace('iter(', '('), rows, R.ns):
                 ctx.fail('property', 'as_samples', 'list of dicts in differing key orders',
-                         f'{site}: {type(e).__name__} because as_samples misplaces columns; input {enc_expr}', repro=repro)
+                         f'{site}: {type(e).__name__} because as_samples delivers other values than the input assigns; input {enc_expr}', repro=repro)
             else:
                 ctx.fail('property', site, ic, f'{type(e).__name__}: {e} for valid cases', repro=repro)
             continue
@@ -754,7 +1155,7 @@ def case_dqm(ctx, r, B, children):
         if got != expect:
             if name.startswith('dicts') and as_samples_wrong(enc_expr.replace('iter(', '('), rows, R.ns):
                 ctx.fail('property', 'as_samples', 'list of dicts in differing key orders',
-                         f'{site}: wrong energies because as_samples misplaces columns; input {enc_expr}', repro=repro)
+                         f'{site}: wrong energies because as_samples delivers other values than the input assigns; input {enc_expr}', repro=repro)
             else:
                 ctx.fail('property', site, ic, f'energies {list(map(str, got))} but the reported cases give {list(map(str, expect))}', repro=repro)
             continue
@@ -876,6 +1277,60 @@ def sweep_permutations(ctx, B):
                 return
 
 
+def sweep_dtype_boundaries(ctx, B):
+    """every run: for EVERY signed integer width (8, 16, 32, 64 bits) the six values around ±2^(w-1) that an int64 holds, as the
+    extreme entry of integer samples given without a dtype, in every dtype-less form: as_samples must deliver the values it was
+    given, and QM / CQM energies at ±2^(w-1) (exact in double) must be the reported polynomial"""
+    hdr = 'import warnings; warnings.simplefilter("ignore")\nimport numpy as np, dimod\n'
+    ns = {'np': np, 'dimod': dimod}
+    for w in (7, 15, 31, 63):
+        for bv in (2 ** w, -(2 ** w), 2 ** w - 1, -(2 ** w) + 1, 2 ** w + 1, -(2 ** w) - 1):
+            if not -2 ** 63 <= bv <= 2 ** 63 - 1:
+                continue
+            name = f'{"+" if bv > 0 else "-"}2^{w}' + ('' if abs(bv) == 2 ** w else '-1' if abs(bv) < 2 ** w else '+1')
+            for form, expr, mat in (('list', f'[[{bv}, 1], [0, -3]]', [[bv, 1], [0, -3]]), ('list+labels', f'([[1, {bv}]], ["a", "b"])', [[1, bv]]),
+                                    ('dict', f'{{"a": {bv}, "b": 2}}', [[bv, 2]]), ('dicts', f'[{{"a": {bv}, "b": 2}}, {{"b": 1, "a": 0}}]', [[bv, 2], [0, 1]]),
+                                    ('1-d list', f'[{bv}, 5]', [[bv, 5]])):
+                ic = f'integer samples without a dtype; extreme entry {name} ({form})'
+                ctx.tick('dtype sweep: ' + name)
+                ctx.case(('dtype sweep', expr), nontrivial=True)
+                repro = hdr + f'arr, labels = dimod.as_samples({expr})\nassert arr.tolist() == {mat!r}, (arr.dtype, arr.tolist())\n'
+                try:
+                    arr = np.asarray(dimod.as_samples(eval(expr, ns))[0])
+                except Exception as e:  # noqa
+                    ctx.fail('property', 'as_samples', ic, f'valid input rejected ({type(e).__name__}: {e}): {expr}', repro=repro)
+                    continue
+                if arr.tolist() != mat:
+                    ctx.fail('property', 'as_samples', ic, f'delivered {arr.tolist()} (dtype {arr.dtype}) for {mat}; input {expr}', repro=repro, detail=dict(input=expr))
+                    continue
+                if form != 'dicts':
+                    B.add(f'samplearray {introws_tok(mat)}', f'ok {arr.dtype.name} {introws_tok(arr.tolist())}', 'sampleset._sample_array', ic, f'as_samples({expr})')
+            if abs(bv) != 2 ** w:
+                continue
+            # energies at ±2^w: 0.5·x + 1·b + off with b = 1, off = 0.25 (b = 0, off = 0 at 2^63, where only x/2 itself is exact in double)
+            script = hdr + ('from dimod import QuadraticModel as QM, ConstrainedQuadraticModel as CQM\nq = QM()\n'
+                            'q.add_variable("REAL", "x", lower_bound=-1e19, upper_bound=1e19); q.add_variable("BINARY", "b")\n'
+                            f'q.set_linear("x", 0.5); q.set_linear("b", 1); q.offset = {0.25 if w < 63 else 0}\n'
+                            'c = CQM(); c.set_objective(q); c.add_constraint_from_model(q, "<=", 1, label="k")\n')
+            exec(script, ns)
+            bval = 1 if w < 63 else 0
+            want = Fraction(bv) / 2 + (1 + Fraction(1, 4) if w < 63 else 0)
+            for target, site in (('q', 'QM.energies'), ('c.objective', 'CQM.objective.energies'), ('c.constraints["k"].lhs', 'CQM.constraint.lhs.energies')):
+                for form, expr in (('dict', f'{{"x": {bv}, "b": {bval}}}'), ('list+labels', f'([[{bval}, {bv}]], ["b", "x"])'), ('dicts', f'[{{"b": {bval}, "x": {bv}}}]')):
+                    ic = f'largest magnitude in the sample array is {name}'
+                    ctx.tick(f'dtype sweep: {site}')
+                    ctx.case(('dtype sweep', target, expr), nontrivial=True)
+                    repro = script + f'from fractions import Fraction\ngot = [Fraction(float(e)) for e in {target}.energies({expr})]\nassert got == [Fraction({want.numerator}, {want.denominator})], got\n'
+                    try:
+                        got = [F(e) for e in eval(f'{target}.energies({expr})', ns)]
+                    except Exception as e:  # noqa
+                        ctx.fail('property', site, ic, f'{type(e).__name__}: {e} for {expr}', repro=repro)
+                        continue
+                    if got != [want]:
+                        ctx.fail('property', site, ic, f'{form}: energies {list(map(str, got))} but the polynomial of the reported coefficients gives {want}; sample {expr}',
+                                 repro=repro, detail=dict(encoding=expr))
+
+
 def run(ctx):
     r = ctx.rng
     B = Batch(ctx)
@@ -887,7 +1342,8 @@ def run(ctx):
                 'permuted columns, SampleSet, plain arrays); a case = one energies call or one as_samples call; non-trivial = the '
                 'model has variables and the call evaluates at least one row; distinct by (construction script, target, encoding)')
     for i in range(n):
-        kind = r.choice(['bqm', 'bqm', 'qm', 'qm', 'cqm', 'cqm', 'cqm', 'dqm', 'poly', 'as', 'as', 'as', 'wide', 'wide', 'stale', 'stale', 'range', 'range'])
+        kind = r.choice(['bqm', 'bqm', 'qm', 'qm', 'cqm', 'cqm', 'cqm', 'dqm', 'poly', 'as', 'as', 'as', 'wide', 'wide', 'stale', 'stale', 'range', 'range',
+                         'cqmrange', 'cqmrange', 'boundary', 'boundary', 'asforms', 'asforms'])
         ctx.tick('model:' + kind)
         if kind == 'bqm':
             case_bqm(ctx, r, B)
@@ -905,6 +1361,12 @@ def run(ctx):
             case_stale_view(ctx, r, B)
         elif kind == 'range':
             case_range_labels(ctx, r, B)
+        elif kind == 'cqmrange':
+            case_cqm_range(ctx, r, B)
+        elif kind == 'boundary':
+            case_dtype_boundary(ctx, r, B)
+        elif kind == 'asforms':
+            check_as_samples_forms(ctx, r, B)
         else:
             check_as_samples(ctx, r, B)
         if len([f for f in ctx.failures if f['kind'] == 'property']) >= 12:
@@ -922,6 +1384,7 @@ def run(ctx):
             expect = 'crash'
             ctx.fail('crash', site, ic, f'{what}: interpreter exited with status {rc}: {err.strip()[-300:]}', repro=script, detail=detail)
         B.add(line, expect, site, ic, what, detail=detail, on_mismatch=lambda g, expect=expect: g.split(' ')[0] == expect or expect != 'err')
+    sweep_dtype_boundaries(ctx, B)
     if not ctx.quick:
         sweep_permutations(ctx, B)
     B.flush()
